@@ -24,7 +24,8 @@ CFG = {
             "watch kinds `weff/wieff/wseff/wsieff h<sig>` = Effect::watch / watch_sync whose HANDLER reads (with .get()) a signal the dependency "
             "function does not read (`whandler`): a write to it must not re-invoke anything; `memoh` asymmetric comparator leaves; comparator / "
             "prev-argument instrumentation as in C01; `imm` (an eighth) = ImmediateEffect::new over signals and memos over signals; `slice`, "
-            "`mapped`, `maybe`, `dropped`, `scope`, `disposew`, `oncl`, `rieff` (RenderEffect::new_isomorphic) as in C01 / C02",
+            "`mapped`, `maybe`, `dropped`, `scope`, `disposew`, `setun`, `memof`, `oncl`, `rieff` (RenderEffect::new_isomorphic) as in C01 / C02; "
+            "`onclr` = the on_cleanup callbacks of every effect constructor read a signal (a write to a cleanup-only signal must not re-invoke the body)",
     "trusted": ["the harness counts invocations inside the real closures; versions (writes / changed recomputations) are kept by the harness",
                 "lean/LeptosModel/Model/ReactiveDriver.lean desugars `sel K e` into K flag signals + one render effect, `memoc` into `memo`, `acc` into nothing (header comment)"],
     "modelled": ["MemoInner::update_if_necessary (changed flag, Check resolution, skip-current-observer rule)", "EffectInner::{mark_dirty,mark_check,update_if_necessary}",
